@@ -1944,7 +1944,7 @@ func main() {
 			return
 		}
 
-		total := vlib.Pick(c, 170*time.Second, 25*time.Minute)
+		total := vlib.Pick(c, 170*time.Second, 28*time.Minute)
 		c.SetBudget(total)
 		t0 := time.Now()
 		partNames(c)
@@ -1957,9 +1957,10 @@ func main() {
 		if c.Quick() {
 			partHistories(c, wp, "narrow", ops, narrowOps(ops), narrowCfgs, 3, byName, total-time.Since(t0))
 		} else {
-			// deeper with the narrow alphabet, then wider (all operations, more registry settings) at depth 3
-			partHistories(c, wp, "narrow", ops, narrowOps(ops), narrowCfgs, 4, byName, (total-time.Since(t0))/2)
-			partHistories(c, wp, "wide", ops, allOpIdx(ops), wideCfgs, 3, byName, total-time.Since(t0))
+			// wider (all operations, more registry settings) at depth 3, then deeper with the narrow alphabet;
+			// the deep run is the larger one and gets everything the wide run leaves of the budget
+			partHistories(c, wp, "wide", ops, allOpIdx(ops), wideCfgs, 3, byName, (total-time.Since(t0))/2)
+			partHistories(c, wp, "narrow", ops, narrowOps(ops), narrowCfgs, 4, byName, total-time.Since(t0))
 		}
 	})
 }
